@@ -3,6 +3,7 @@ package main
 import (
 	"bytes"
 	"context"
+	"io"
 	"os"
 	"path/filepath"
 	"strings"
@@ -39,6 +40,30 @@ type Case struct {
 	Texts    []string  `json:"item_texts,omitempty"`         // item text of every non-blank row (for the no-silent-loss check)
 	Stray    string    `json:"stray_option,omitempty"`       // an output-encoding option given to mkdir / verify / walk, where it must not matter
 	Busy     bool      `json:"busy_elsewhere,omitempty"`     // the consumer of the iterator builds another tree between two items
+	Chunk    int       `json:"reader_chunk,omitempty"`       // the reader delivers at most this many bytes per Read (0: no limit)
+	RawTgt   bool      `json:"raw_target,omitempty"`         // the target directory is handed over as spelled (trailing slash, ./, x/../x …), not cleaned
+}
+
+// reader of the case's document
+func (c Case) reader() io.Reader {
+	return &faultReader{data: c.doc(), fail: c.Fail, chunk: c.Chunk}
+}
+
+func (c Case) targetIn(jail string) string {
+	if c.RawTgt {
+		return jail + "/" + c.Target
+	}
+	return filepath.Join(jail, c.Target)
+}
+
+// reenter: what a callback may do while a walk is in progress – use the library on other data
+func reenter() {
+	r := gtree.NewRoot("other")
+	r.Add("x").Add("y")
+	var b bytes.Buffer
+	gtree.OutputFromRoot(&b, r)
+	gtree.OutputFromMarkdown(&b, strings.NewReader("- p\n  - q\n"))
+	gtree.WalkFromRoot(r, func(*gtree.WalkerNode) error { return nil })
 }
 
 // strayOpts: the encoding options belong to Output; Mkdir, Verify and Walk must behave the same with them.
@@ -59,6 +84,9 @@ func strayAll(cs []Case) []Case {
 	out := make([]Case, len(cs))
 	copy(out, cs)
 	for i := range out {
+		if out[i].Doc != "" && out[i].Chunk == 0 && i%5 == 2 {
+			out[i].Chunk = 1 + i%3 // a reader that delivers one to three bytes at a time
+		}
 		switch out[i].Kind {
 		case "mkdir", "verify", "walk", "rootwalk", "rootiter":
 			if out[i].Stray == "" && i%4 == 3 {
@@ -121,16 +149,16 @@ func runCaseR(m *Model, c Case) ([]Diff, string) {
 		w := &faultWriter{failAt: c.WFail, short: c.Short}
 		var err error
 		if c.Alias {
-			err = gtree.Output(w, newReader(c.doc(), c.Fail), opts...)
+			err = gtree.Output(w, c.reader(), opts...)
 		} else {
-			err = gtree.OutputFromMarkdown(w, newReader(c.doc(), c.Fail), opts...)
+			err = gtree.OutputFromMarkdown(w, c.reader(), opts...)
 		}
 		realv := "w=" + hx(w.buf.Bytes()) + " e=" + classify(err)
 		modelv := m.Ask("out " + c.Mode + " " + c.Fmt.enc() + " " + hxList(c.Exts) + " " + b01(c.Fail) + " " + optN(c.WFail) + " " + optN0(c.Short) + " " + c.Doc0())
 		return cmp("output", realv, modelv), realv
 	case "outf":
 		var buf bytes.Buffer
-		err := gtree.OutputFromMarkdown(&buf, newReader(c.doc(), c.Fail), encodeOpt(c.Format))
+		err := gtree.OutputFromMarkdown(&buf, c.reader(), encodeOpt(c.Format))
 		nodes, derr := decodeFormatted(c.Format, buf.Bytes())
 		realv := "f=" + showFNodes(nodes) + " e=" + classify(err)
 		if derr != nil {
@@ -163,6 +191,9 @@ func runCaseR(m *Model, c Case) ([]Diff, string) {
 		cb := func(wn *gtree.WalkerNode) error {
 			vs = append(vs, showVisit(wn))
 			k++
+			if c.Busy {
+				reenter()
+			}
 			if c.FailAt >= 0 && k-1 == c.FailAt {
 				return errCallback
 			}
@@ -170,9 +201,9 @@ func runCaseR(m *Model, c Case) ([]Diff, string) {
 		}
 		var err error
 		if c.Alias {
-			err = gtree.Walk(newReader(c.doc(), c.Fail), cb, append(fmtOpts(c.Fmt), strayOpts(c)...)...)
+			err = gtree.Walk(c.reader(), cb, append(fmtOpts(c.Fmt), strayOpts(c)...)...)
 		} else {
-			err = gtree.WalkFromMarkdown(newReader(c.doc(), c.Fail), cb, append(fmtOpts(c.Fmt), strayOpts(c)...)...)
+			err = gtree.WalkFromMarkdown(c.reader(), cb, append(fmtOpts(c.Fmt), strayOpts(c)...)...)
 		}
 		realv := "v=" + showVisits(vs) + " e=" + classify(err)
 		if err == nil && len(c.Texts) > 0 {
@@ -208,6 +239,9 @@ func runCaseR(m *Model, c Case) ([]Diff, string) {
 		cb := func(wn *gtree.WalkerNode) error {
 			vs = append(vs, showVisit(wn))
 			k++
+			if c.Busy {
+				reenter()
+			}
 			if c.FailAt >= 0 && k-1 == c.FailAt {
 				return errCallback
 			}
@@ -294,7 +328,7 @@ func runMkdir(m *Model, c Case) ([]Diff, string) {
 	defer os.RemoveAll(jail)
 	populate(jail, c.Pre)
 	before := snapshot(jail)
-	target := filepath.Join(jail, c.Target)
+	target := c.targetIn(jail)
 	opts := append([]gtree.Option{gtree.WithTargetDir(target), gtree.WithFileExtensions(c.Exts)}, strayOpts(c)...)
 	var written bytes.Buffer
 	var err error
@@ -308,9 +342,9 @@ func runMkdir(m *Model, c Case) ([]Diff, string) {
 			}
 		} else {
 			if c.Alias {
-				err = gtree.Mkdir(newReader(c.doc(), c.Fail), opts...)
+				err = gtree.Mkdir(c.reader(), opts...)
 			} else {
-				err = gtree.MkdirFromMarkdown(newReader(c.doc(), c.Fail), opts...)
+				err = gtree.MkdirFromMarkdown(c.reader(), opts...)
 			}
 		}
 	}
@@ -346,7 +380,7 @@ func runVerify(m *Model, c Case) ([]Diff, string) {
 	defer os.RemoveAll(jail)
 	populate(jail, c.Pre)
 	before := snapshot(jail)
-	target := filepath.Join(jail, c.Target)
+	target := c.targetIn(jail)
 	opts := append([]gtree.Option{gtree.WithTargetDir(target)}, strayOpts(c)...)
 	if c.Massive {
 		// single-root trees only: then the verdict and the lists of the massive mode are determined
@@ -365,9 +399,9 @@ func runVerify(m *Model, c Case) ([]Diff, string) {
 		}
 	} else {
 		if c.Alias {
-			err = gtree.Verify(newReader(c.doc(), c.Fail), opts...)
+			err = gtree.Verify(c.reader(), opts...)
 		} else {
-			err = gtree.VerifyFromMarkdown(newReader(c.doc(), c.Fail), opts...)
+			err = gtree.VerifyFromMarkdown(c.reader(), opts...)
 		}
 	}
 	after := snapshot(jail)
